@@ -90,6 +90,13 @@ def _run(ck: core.Check, pool):
                 tasks.append({"level": "c07prog", "steps": steps, "sel": sel, "seed": seed, "derived": t})
     pending = pool.map_async(_task, tasks, chunksize=4)
 
+    # ---- translate (tie G): who overrides propagate_values
+    try:
+        from translator import vp_overrides
+
+        ck.cov["propagate_values_overrides"] = [list(e) for e in vp_overrides.generate()]
+    except Exception as e:  # noqa: BLE001
+        ck.broken("translator", "vp_overrides", f"{type(e).__name__}: {str(e)[:200]}")
     # ---- prove
     ck.lean(["SpoxModel.Props.C07"], audit="SpoxModel.Audit.C07")
     if ck.thorough:
@@ -125,6 +132,9 @@ def _run(ck: core.Check, pool):
             if key not in shrunk and len(shrunk) < 6:  # shrink once per distinct failure, a handful at most
                 shrunk[key] = _shrink(task, key)
             ck.failure(key, what, shrunk.get(key, task))
+    if tot.get("control_flow_valued"):
+        ck.broken("correspondence", "C07 a control-flow node (If / Loop) carries a propagated value",
+                  f"{tot['control_flow_valued']} Vars: the model knows no propagate_values for control flow")
     if tot["infra"] > len(tasks) // 10:
         ck.broken("oracle", "C07 program oracle starved", f"{tot['infra']} of {len(tasks)} program cases could not be judged")
     ck.sample({"program": tasks[0]["steps"][:6], "sel": tasks[0]["sel"]})
